@@ -22,6 +22,21 @@ GLOBAL_ASSUMPTIONS = [
 ]
 
 
+def bounded_unit(name, func, pid, search, describe, props=None, timeout=900):
+    """a BOUNDED native stand-in executed as a unit (also in the quick tier): search() -> (failing inputs, evaluations).  Its single
+    obligation is reported separately in the evidence and never counted as discharged by proof."""
+    def run(mutate=None):
+        import z3
+        from . import sym
+
+        def body():
+            bad, n = search()
+            sym.check(f"{pid}.bounded.{describe}", z3.BoolVal(not bad), note=f"{n} evaluations; " + (str(bad[:2]) if bad else "no failing input"))
+        obls, n_ = sym.explore(body)
+        return dict(obls=obls, paths=n_, sources=[], consistent=True)
+    return Unit(name, func, run, props=props or [pid], timeout=timeout, kind="bounded")
+
+
 class Unit:
     """one function under contract in one scenario.  run() performs the symbolic execution and calls
     sym.check(); replay(obl) -> dict(confirmed=bool, ...) replays a counter-model on the real code natively."""
@@ -45,7 +60,7 @@ def _worker(modname, unit_name, mutate, q):
         t0 = time.time()
         res = u.run(mutate) if mutate is not None else u.run(None)
         # res: dict(obls=[Obl], paths=int, sources=[info], consistent=bool|None)
-        out = dict(unit=unit_name, func=u.func, status="ok", paths=res.get("paths", 0),
+        out = dict(unit=unit_name, func=u.func, kind=getattr(u, "kind", "proof"), status="ok", paths=res.get("paths", 0),
                    obls=[o.as_dict() for o in res["obls"]], sources=res.get("sources", []),
                    consistent=res.get("consistent"), secs=time.time() - t0,
                    stats=dict(sym.STATS), extra=res.get("extra", {}))
@@ -150,6 +165,8 @@ def run_mutants(modname, units, mutants, jobs=None):
     pairs = []
     for mi, m in enumerate(mutants):
         for u in units:
+            if getattr(u, "kind", "proof") == "bounded" and not (m.get("units") and u.name in m["units"]):
+                continue        # bounded native stand-ins read the real tree: in-memory mutants do not reach them
             if m.get("units") is None or u.name in m["units"]:
                 u2 = copy.copy(u)
                 u2.name = f"{mi}::{u.name}"
